@@ -177,6 +177,32 @@ def main(run):
                                   f"{(mean, var, math.sqrt(var))!r}", {"k": ki, "k_type": kname, "updates": m, "last_values": vals[-ki - 2:]})
                     break
         run.nontriv(("c11-k-type", kname, ki))
+    # ---- a few thousand updates on one tracker, statistics read after EVERY update (rare single wrong reads, e.g. right after an
+    # internal compaction / wrap every few hundred updates)
+    for k in (1, 3, 7, 100):
+        if k % run.shard[1] != run.shard[0] % run.shard[1] and run.shard[1] > 1:
+            continue
+        tr = SlidingWindowTracker(k)
+        vals = []
+        n_dense = 2600 if run.tier == "quick" else 12000
+        for m in range(1, n_dense + 1):
+            v = rnd.gauss(0, 2) + (m % 13)
+            vals.append(v)
+            tr.update(v)
+            win = vals[-k:]
+            mean = math.fsum(win) / len(win)
+            gm = tr.mean
+            run.ok(kind="dense-reads")
+            if not (isinstance(gm, (float, np.floating)) and abs(float(gm) - mean) <= 1e-11 * max(1.0, abs(mean))):
+                run.violation("window-mean", f"k={k}: after {m} updates on one tracker (read after every update) mean={gm!r}, the last min(n,k) values give {mean!r}",
+                              {"k": k, "updates": m, "last_values": vals[-k - 2:]})
+                break
+            if m % 97 == 0:
+                var = math.fsum((x_ - mean) ** 2 for x_ in win) / len(win)
+                if not abs(float(tr.var) - var) <= 1e-10 * max(1.0, var):
+                    run.violation("window-var", f"k={k}: after {m} updates var={tr.var!r}, the window gives {var!r}", {"k": k, "updates": m})
+                    break
+        run.nontriv(("c11-dense", k))
     # ---- EVERY window size 1..130 (thorough ..400) at EVERY fill count 1..k and a few counts beyond: thin slices in (k, n)
     kmax = 130 if run.tier == "quick" else 400
     for k in range(1 + run.shard[0], kmax + 1, run.shard[1]):
